@@ -169,6 +169,30 @@ def tlc(module, cfg_text, wd, name=None, workers=None, timeout=900, extra=(), du
     return r
 
 
+def apalache(module_path, constants, init, inv, length, wd, name, timeout=900, next_="Next"):
+    """Run apalache-mc check; returns (ok, violated, counterexample states or None)."""
+    rundir = os.path.join(wd, name)
+    os.makedirs(rundir, exist_ok=True)
+    shutil.copy(module_path, rundir)
+    mod = os.path.basename(module_path)
+    with open(os.path.join(rundir, "a.cfg"), "w") as fh:
+        for k, v in constants.items():
+            fh.write("CONSTANT %s = %s\n" % (k, tla_value(v)))
+        fh.write("INIT Init\nNEXT Next\n")
+    out = os.path.join(rundir, "out")
+    p = subprocess.run(["timeout", str(timeout), "apalache-mc", "check", "--config=a.cfg", "--init=" + init, "--next=" + next_, "--inv=" + inv, "--length=%d" % length,
+                        "--out-dir=" + out, mod], cwd=rundir, stdout=subprocess.PIPE, stderr=subprocess.STDOUT, text=True)
+    if "EXITCODE: OK" in p.stdout:
+        return True, False, None
+    if "EXITCODE: ERROR (12)" in p.stdout:
+        states = None
+        for root, _, files in os.walk(out):
+            if "violation1.itf.json" in files:
+                states = json.load(open(os.path.join(root, "violation1.itf.json")))["states"]
+        return False, True, states
+    raise Inconclusive("apalache failed on %s: %s" % (mod, p.stdout[-600:]))
+
+
 def require_ok(r, what):
     if not r.ok:
         raise Inconclusive("%s: shipped model configuration did not pass TLC: violated=%s error=%s" %
